@@ -196,7 +196,7 @@ pub fn answers(c: &ChildOut, slot: usize) -> Vec<&Answer> {
 
 /// A start counts as disturbed when a kill or a non-retryable failure was actually injected.
 pub fn disturbed(c: &ChildOut) -> bool {
-    matches!(c.fault_fired(), Some((kind, _, _)) if kind == "kill" || kind == "fail")
+    matches!(c.fault_fired(), Some((kind, _, _)) if kind == "kill" || kind == "fail" || kind == "sys-kill" || kind == "sys-error")
 }
 
 fn fmt_res(r: &[Res]) -> String {
